@@ -1995,10 +1995,9 @@ MUTANTS = [
     ("equal-attacher-taken-for-the-installed-one", "txtorcon/torstate.py",
      "            if self._attacher is attacher:\n                return\n",
      "            if self._attacher == attacher:\n                return\n"),
-    ("quoted-keyword-value-with-blank-aborts-the-stream-update", "txtorcon/util.py",
-     "    return dict(x.split('=', 1) for x in filtered)",
-     "    kw = dict(x.split('=', 1) for x in filtered)\n    for k, v in kw.items():\n"
-     "        if v.startswith('\"'):\n            kw[k] = unescape_quoted_string(v)\n    return kw"),
+    # ("quoted-keyword-value-with-blank-aborts-the-stream-update", un-quoting in find_keywords = seeded C09/r7s2) was
+    # dropped: since fix 58c8ee8 a quoted value reaches find_keywords() in one piece, un-quoting it is harmless
+    # (an equivalent mutant; it was killed at 404733d, see notes/C09.md)
     ("stream-event-split-ignores-quotes", "txtorcon/torstate.py",     # needs fixes/C09-quoted-keyword-value-split.diff
      "        args = _split_event_args(line)\n", "        args = line.split()\n"),
     ("attachstream-names-the-wrong-stream", "txtorcon/torstate.py",
